@@ -7,6 +7,7 @@
     X <type> <ver>                  →  <carried field names, wire order>
     G <type>                        →  <version constants of the layout>
     K <type>                        →  <rec after Clear()> <rec after the constructor>
+    Q <type> <ver> <rec>            →  ok <rec of all struct fields after Process()>  |  panic
     D <ver> <hex>                   →  <hex of Dbc after Process()>
     N <4|8> <hex>                   →  ParseInt32 / ParseInt64 of the text
     Z <int>                         →  <hex of ParseStringZeroToEmpty>
@@ -16,6 +17,7 @@
 -/
 import Golib.Udp.Packs
 import Golib.Udp.ParamKV
+import Golib.Udp.Process
 import Driver.Common
 
 open Udp Drv
@@ -62,6 +64,13 @@ def answer (line : String) : String :=
       | some (st', rest) => s!"ok {showRec t.fieldNames st'} {rest.length}"
       | none => "fail"
     | _, _, _, _ => "bad-op"
+  | ["Q", t, ver, rec] =>
+    match findPack t, parseInt ver, parseRec rec with
+    | some t, some ver, some st =>
+      match t.process ver st with
+      | some st' => s!"ok {showRec t.fieldNames st'}"
+      | none => "panic"
+    | _, _, _ => "bad-op"
   | ["X", t, ver] =>
     match findPack t, parseInt ver with
     | some t, some ver => listOf id (t.layout.carried ver)
